@@ -83,6 +83,7 @@ def run(tier, seed):
     H, D = bounds(tier)
     its = items(tier)
     col = stepcheck.explore(its, MONS, H, D, who_fn=lambda sp: stepcheck.default_who(sp, facilities=False), seed=seed)
+    col.merge(stepcheck.explore(stepcheck.edited_items(), MONS, 0, 0, seed=seed))  # runs after an earlier run and an in-place model edit
     meta = {
         "level": "model_checking",
         "rule": "every workflow on 3 tasks (thorough: also 4) with each pair i<j unlinked or linked FS/SS/FF/SF x work vectors (incl. zero-work milestone tasks, manual and automatic) x team layouts x task rules "
